@@ -91,11 +91,13 @@ C_Call ==
        [] Ev.op = "TakeDest" -> CallTakeDest(Ev.m, Ev.d)
        [] Ev.op = "RelDest"  -> CallRelDest(Ev.m, Ev.d)
        \* the key a session releases under is not visible from outside: the one it took, or
-       \* (deviation ReleaseOtherKey) the raw spelling of the sender domain, which no
-       \* bucket is ever created for
+       \* (deviation ReleaseOtherKey = finding F5: immediate-reject mode only, where Mail
+       \* overwrites the normalised sender after startDelivery; sender domain not in its
+       \* normalised spelling) the raw spelling, which no bucket is ever created for.  The
+       \* same symptom in deferred mode is NOT that finding and stays unexplained.
        [] Ev.op = "RelMsg"   -> /\ Ev.ip = arg[Ev.m].ip
                                 /\ \/ CallRelMsg(Ev.m, Ev.src)
-                                   \/ Endp /\ D("ReleaseOtherKey") /\ Ev.raw /\ CallRelMsg(Ev.m, RawKey)
+                                   \/ Endp /\ D("ReleaseOtherKey") /\ Ev.raw /\ ~Ev.defer /\ CallRelMsg(Ev.m, RawKey)
        [] Ev.op = "End"      -> CallEnd(Ev.m)
        [] OTHER -> FALSE
 
@@ -138,6 +140,8 @@ ObsApply(o, e) ==
     [] e.e = "Quiesced" -> ObsSnapX(ObsQuiesced(o, e.use, Range(e.nosem)), e.usex, Range(e.nosem))
     [] e.e = "Fill" -> V(o, e.panics = 0, "Crash")
     [] e.e = "MailReject" -> ObsMailReject(o, e.m, e.d)
+    [] e.e = "Yield" -> ObsYield(o, e.m)
+    [] e.e = "Resume" -> ObsResume(o, e.m)
     [] OTHER -> o
 
 M_Step ==
